@@ -498,7 +498,7 @@ def json_set(doc, p, new):
 def json_value_faults(rng, doc, tier):
     """(kind, value): single-point faults of a valid JSON document, as Python values"""
     paths = list(json_paths(doc))
-    per_path = 6 if tier == "quick" else len(JSON_REPLACEMENTS)
+    per_path = 6 if tier == "quick" else 14
     for p, v in paths:
         for rep in rng.sample(JSON_REPLACEMENTS, per_path):
             yield "replace", json_set(copy.deepcopy(doc), p, copy.deepcopy(rep))
